@@ -21,6 +21,7 @@ EXPLANATION = (
     "allow_none is set (every reporting path of all/3 has established a non-empty list or allow_none), and all_or_none sets it; J5 "
     "LogicFormula.copy_node, with which findall/3 moves proof branches into the caller's formula, returns the negation of the copied node for a negative literal "
     "and the copy itself for a positive one, for atoms, conjunctions and disjunctions alike."
+    " Added after seed round 8: J6 enumerate_branches extends its ancestors by value for each recursive call."
 )
 TECHNIQUE = "static analysis: finite-domain evaluation of the selection conditions (constant folding under scenarios), enumeration-shape and consumer wiring rules"
 LEVEL_TEXT = EXPLANATION
